@@ -31,9 +31,12 @@ Owner == 1                 \* whose commitment confirms (the cheater in revoked 
 Other == 0
 
 \* the HTLC outputs a commitment may carry; `pk`: the preimage is known to the receiver at closing
+\* (aggregated second-stage transactions need two HTLCs of one kind: a second claimed HTLC when the cheater's
+\*  shapes are explored)
 Menu == { [k |-> "offered", amt |-> 5000, hash |-> 1, pk |-> FALSE],
           [k |-> "received", amt |-> 6000, hash |-> 2, pk |-> TRUE],
           [k |-> "received", amt |-> 7000, hash |-> 3, pk |-> FALSE] }
+        \cup (IF "fee_between" \in Layouts THEN {[k |-> "received", amt |-> 8000, hash |-> 4, pk |-> TRUE]} ELSE {})
 
 RECURSIVE SeqOf(_)
 SeqOf(S) == IF S = {} THEN <<>> ELSE LET x == CHOOSE y \in S : \A z \in S : y.hash <= z.hash
